@@ -1,5 +1,7 @@
 pub mod astwalk;
 pub mod canon;
+pub mod exec;
 pub mod front;
+pub mod interp;
 pub mod sexp;
 pub mod toks;
